@@ -643,7 +643,10 @@ class Program:
                 raise AnchorMissing(owner)
             return None
         def weight(b):
-            return sum(1 for c in b.calls if not c.expn or "desugar" in "".join(c.macros))
+            user = sum(1 for c in b.calls if not c.expn)
+            sugar = sum(1 for c in b.calls if c.expn and c.macros and c.macros[0] in (
+                "desugar:Await", "desugar:QuestionMark", "desugar:ForLoop", "ensure", "bail"))
+            return (user, sugar)
         return max(bs, key=lambda b: (weight(b), len(b.blocks)))
 
     def calls_in(self, owner):
